@@ -8,8 +8,42 @@ import UtapModel.Model.BuilderTrace
 namespace UtapModel.C16
 open UtapModel.Builder UtapModel.C16Grammar
 
-/-- representative call of a callback name (arguments do not matter for the frame effect) -/
-def callOf (cb : String) : Option Call := Call.ofTrace cb ["\"x\"", "\"x\"", "\"x\"", "0"]
+/-- the same call with literal arguments (names "x", counts 0): the frame effect of a callback does not depend on its
+    arguments, and literal arguments keep the computation inside what the kernel can evaluate (`decide +kernel`) -/
+def Call.normalize : Call → Call
+  | .frag _ _ => .frag 0 0
+  | .exprIdentifier _ => .exprIdentifier "x"
+  | .quantBegin _ => .quantBegin "x"
+  | .dynQuantBegin _ => .dynQuantBegin "x"
+  | .typePrim _ _ _ => .typePrim false 0 false
+  | .typeName _ => .typeName "x"
+  | .typeArrayOfSize _ => .typeArrayOfSize 0
+  | .typeArrayOfType _ => .typeArrayOfType 0
+  | .declTypedef _ => .declTypedef "x"
+  | .declVar _ _ => .declVar "x" false
+  | .declParameter _ => .declParameter "x"
+  | .declFuncBegin _ => .declFuncBegin "x"
+  | .declExternalFunc _ => .declExternalFunc "x"
+  | .declDynamicTemplate _ => .declDynamicTemplate "x"
+  | .iterationBegin _ => .iterationBegin "x"
+  | .returnStatement _ => .returnStatement false
+  | .procBegin _ _ => .procBegin "x" true
+  | .procLocation _ _ _ => .procLocation "x" false false
+  | .procLocationCommit _ => .procLocationCommit "x"
+  | .procLocationUrgent _ => .procLocationUrgent "x"
+  | .procLocationInit _ => .procLocationInit "x"
+  | .procBranchpoint _ => .procBranchpoint "x"
+  | .procEdgeBegin _ _ _ => .procEdgeBegin "x" "x" true
+  | .procSelect _ => .procSelect "x"
+  | .ganttSelect _ => .ganttSelect "x"
+  | .instanceNameEnd _ => .instanceNameEnd 0
+  | .instantiationBegin _ _ => .instantiationBegin "x" "x"
+  | .instantiationEnd _ _ _ => .instantiationEnd "x" "x" 0
+  | .process _ => .process "x"
+  | c => c
+
+/-- representative call of a callback name -/
+def callOf (cb : String) : Option Call := (Call.ofTrace cb []).map Call.normalize
 
 /-- a state with two frames on the stack, so that a pop is visible -/
 def probe : BState := BState.init.pushNewFrame
@@ -55,5 +89,26 @@ def openAcross : List Item → Option String
 /-- the exception shapes: callbacks whose frame can be left pushed by an abandoned production inside a label -/
 def exceptionShapes : List String :=
   (productions.filterMap (fun p => if labelNonterminals.contains p.1 then openAcross p.2 else none)).eraseDups
+
+
+/-- running frame depth over a production's own callbacks (nonterminals count as balanced sub-derivations): `none` if the
+    production ever pops a frame it did not push itself, otherwise the depth at its end -/
+def prodFrameBalance : Nat → List Item → Option Nat
+  | d, [] => some d
+  | d, .sym _ :: r => prodFrameBalance d r
+  | d, .call c :: r =>
+    if pushesFrame c then prodFrameBalance (d + 1) r
+    else if popsFrame c then (match d with
+      | 0 => none
+      | d' + 1 => prodFrameBalance d' r)
+    else prodFrameBalance d r
+
+def isBalanced (items : List Item) : Bool :=
+  match prodFrameBalance 0 items with
+  | some 0 => true
+  | _ => false
+
+/-- every production's complete right-hand side leaves the frame stack as it found it -/
+def allProductionsBalanced : Bool := productions.all (fun p => isBalanced p.2)
 
 end UtapModel.C16
